@@ -6,7 +6,7 @@ PROP = dict(
     engines=[dict(name="events", drv="events", timeout=3600)],
     oracle_tags=["events-not-commits", "subscribers-order-differs", "event-block-missing", "event-block-differs",
                  "event-before-commit", "visible-before-commit", "gql-subscription-count", "panic"],
-    rule=("3 directed histories (updates that change nothing / re-set the same value, failing create, multi-create, explicit transaction discarded and committed, branchable) then PRNG-generated "
+    rule=("6 directed histories (a request committing more documents than a subscriber buffer holds, plain and branchable; updates that change nothing / re-set the same value, failing create, multi-create, explicit transaction discarded and committed, branchable) then PRNG-generated "
           "histories: single and multi-document creates (CreateMany, one by one, GraphQL list input), updates incl. no-change updates, deletes, failing creates, explicit transactions with "
           "several operations that commit or discard, 1-5 bus subscribers that subscribe and unsubscribe in between, plain and branchable collections, plus a GraphQL subscription with a filter; "
           "after every step the new document-level and collection-level commits in the block store are compared with what each subscriber received (as a multiset against the model, in order across subscribers, "
